@@ -6096,6 +6096,8 @@ BD_Shape<T>::generalized_affine_image(const Linear_Expression& lhs,
       for (dimension_type i = lhs_vars.size(); i-- > 0; ) {
         forget_all_dbm_constraints(lhs_vars[i].id() + 1);
       }
+      // Shortest-path closure is preserved, but not reduction.
+      reset_shortest_path_reduced();
       // Constrain the left hand side expression so that it is related to
       // the right hand side expression as dictated by `relsym'.
       // TODO: if the following constraint is NOT a bounded difference,
@@ -6124,6 +6126,8 @@ BD_Shape<T>::generalized_affine_image(const Linear_Expression& lhs,
       for (dimension_type i = lhs_vars.size(); i-- > 0; ) {
         forget_all_dbm_constraints(lhs_vars[i].id() + 1);
       }
+      // Shortest-path closure is preserved, but not reduction.
+      reset_shortest_path_reduced();
 #else // Currently unnecessarily complex computation.
 
       // More accurate computation that is worth doing only if
@@ -6144,6 +6148,8 @@ BD_Shape<T>::generalized_affine_image(const Linear_Expression& lhs,
       for (dimension_type i = lhs_vars.size(); i-- > 0; ) {
         forget_all_dbm_constraints(lhs_vars[i].id() + 1);
       }
+      // Shortest-path closure is preserved, but not reduction.
+      reset_shortest_path_reduced();
       // Constrain the new dimension so that it is related to
       // the left hand side as dictated by `relsym'.
       // TODO: each one of the following constraints is definitely NOT
@@ -6371,6 +6377,8 @@ BD_Shape<T>::generalized_affine_preimage(const Linear_Expression& lhs,
       for (dimension_type i = lhs_vars.size(); i-- > 0; ) {
         forget_all_dbm_constraints(lhs_vars[i].id() + 1);
       }
+      // Shortest-path closure is preserved, but not reduction.
+      reset_shortest_path_reduced();
     }
     else {
 
@@ -6390,6 +6398,8 @@ BD_Shape<T>::generalized_affine_preimage(const Linear_Expression& lhs,
       for (dimension_type i = lhs_vars.size(); i-- > 0; ) {
         forget_all_dbm_constraints(lhs_vars[i].id() + 1);
       }
+      // Shortest-path closure is preserved, but not reduction.
+      reset_shortest_path_reduced();
       // Constrain the new dimension so that it is related to
       // the left hand side as dictated by `relsym'.
       // Note: if `rhs == a_rhs*v + b_rhs' where `a_rhs' is in {0, 1},
